@@ -288,6 +288,47 @@ class _TablesToMatch:
         return m
 
 
+def _inline_class_tuples(tree):
+    """`isinstance(x, _NAMES)` with `_NAMES = (c_ast.A, c_ast.B, ...)` bound once at module level reads as `isinstance(x, (c_ast.A, c_ast.B, ...))`"""
+    import copy
+    tuples, binds = {}, {}
+    for n in ast.walk(tree):
+        if isinstance(n, ast.Name) and isinstance(n.ctx, (ast.Store, ast.Del)):
+            binds[n.id] = binds.get(n.id, 0) + 1
+    for st in tree.body:
+        tgt = st.targets[0] if isinstance(st, ast.Assign) and len(st.targets) == 1 else (st.target if isinstance(st, ast.AnnAssign) and st.value is not None else None)
+        if isinstance(tgt, ast.Name) and isinstance(st.value, ast.Tuple) and st.value.elts and all(isinstance(e, (ast.Name, ast.Attribute)) for e in st.value.elts) and binds.get(tgt.id) == 1:
+            tuples[tgt.id] = st.value
+    if not tuples:
+        return
+    for n in ast.walk(tree):
+        if isinstance(n, ast.Call) and isinstance(n.func, ast.Name) and n.func.id == "isinstance" and len(n.args) == 2 and isinstance(n.args[1], ast.Name) and n.args[1].id in tuples:
+            n.args[1] = ast.copy_location(copy.deepcopy(tuples[n.args[1].id]), n.args[1])
+
+
+class _CharTestsToIn(ast.NodeTransformer):
+    """`c == " " or c == "\t"` and `c in (" ", "\t")` read as `c in " \t"`: one spelling of a test of a character against a small set"""
+
+    def visit_BoolOp(self, node):
+        self.generic_visit(node)
+        if isinstance(node.op, ast.Or) and len(node.values) >= 2 and all(
+                isinstance(v, ast.Compare) and len(v.ops) == 1 and isinstance(v.ops[0], ast.Eq) and isinstance(v.comparators[0], ast.Constant)
+                and isinstance(v.comparators[0].value, str) and len(v.comparators[0].value) == 1 for v in node.values) \
+                and len({ast.unparse(v.left) for v in node.values}) == 1 and isinstance(node.values[0].left, (ast.Name, ast.Subscript, ast.Attribute)) \
+                and not any(isinstance(x, ast.Call) for x in ast.walk(node.values[0].left)):
+            chars = "".join(v.comparators[0].value for v in node.values)
+            return ast.copy_location(ast.Compare(left=node.values[0].left, ops=[ast.In()], comparators=[ast.Constant(value=chars)]), node)
+        return node
+
+    def visit_Compare(self, node):
+        self.generic_visit(node)
+        if len(node.ops) == 1 and isinstance(node.ops[0], (ast.In, ast.NotIn)) and isinstance(node.comparators[0], (ast.Tuple, ast.List, ast.Set)) and len(node.comparators[0].elts) >= 2 \
+                and all(isinstance(e, ast.Constant) and isinstance(e.value, str) and len(e.value) == 1 for e in node.comparators[0].elts) \
+                and isinstance(node.left, ast.Subscript):        # a character taken out of a text (`text[pos] in (" ", "\t")`), not a token value
+            node.comparators = [ast.copy_location(ast.Constant(value="".join(e.value for e in node.comparators[0].elts)), node.comparators[0])]
+        return node
+
+
 def _static_to_method(tree):
     """`@staticmethod def m(a, b)` in a class reads as `def m(self, a, b)`: whether a helper that does not use its instance is declared static
     is no difference in behaviour for calls made through an instance, and every engine can rely on parameter 0 being the receiver."""
@@ -316,9 +357,11 @@ class Module:
             self.tree = ast.parse(self.src, filename=path)
         except SyntaxError as e:  # the tree must at least compile
             raise AnalysisError(f"{path} does not parse: {e}")
+        _inline_class_tuples(self.tree)
         self.tree = _ChainsToMatch().visit(self.tree)     # one normal form for dispatch on a value: `if x == A: .. elif x == B: .. else: ..` (3+ arms) reads as match/case
         _static_to_method(self.tree)
         _TablesToMatch(self.tree).run()
+        self.tree = _CharTestsToIn().visit(self.tree)
         ast.fix_missing_locations(self.tree)
         self.classes: dict[str, ast.ClassDef] = {}
         self.functions: dict[str, ast.FunctionDef] = {}
@@ -404,6 +447,44 @@ def positional_args(call, fn, bound=True):
             return None
         out[k.arg] = k.value
     return [out[p] for p in params + kwonly]
+
+
+def path_aliases(fn):
+    """local name -> the path expression it stands for, for locals bound exactly once to a call-free path (`scope = self._scope_stack[-1]`)
+    in a function that does not rebind the path's root; reading through the alias is reading through the path"""
+    binds, vals = {}, {}
+    for n in ast.walk(fn):
+        if isinstance(n, ast.Name) and isinstance(n.ctx, (ast.Store, ast.Del)):
+            binds[n.id] = binds.get(n.id, 0) + 1
+        if isinstance(n, ast.Assign) and len(n.targets) == 1 and isinstance(n.targets[0], ast.Name):
+            vals[n.targets[0].id] = n.value
+        elif isinstance(n, ast.AnnAssign) and isinstance(n.target, ast.Name) and n.value is not None:
+            vals[n.target.id] = n.value
+    params = {a.arg for a in fn.args.posonlyargs + fn.args.args + fn.args.kwonlyargs}
+    out = {}
+    for name, v in vals.items():
+        if binds.get(name) != 1 or name in params:
+            continue
+        e = v
+        while isinstance(e, (ast.Attribute, ast.Subscript)):
+            if isinstance(e, ast.Subscript) and not (isinstance(e.slice, ast.Constant) or (isinstance(e.slice, ast.UnaryOp) and isinstance(e.slice.operand, ast.Constant))):
+                break
+            e = e.value
+        if isinstance(e, ast.Name) and e.id != name and (e.id in params or binds.get(e.id, 0) == 0) and isinstance(v, (ast.Attribute, ast.Subscript)):
+            out[name] = v
+    return out
+
+
+def unparse_resolved(expr, aliases) -> str:
+    """text of expr with transparent aliases (path_aliases) replaced by the paths they stand for"""
+    import copy
+
+    class R(ast.NodeTransformer):
+        def visit_Name(self, n):
+            if n.id in aliases:
+                return copy.deepcopy(aliases[n.id])
+            return n
+    return ast.unparse(R().visit(copy.deepcopy(expr)))
 
 
 def enclosing_function(node):
